@@ -12,11 +12,11 @@ theorem setMeta_lprim {c : Cell} {aid : Nat} {a a' : App} (ha : c.app? aid = som
     (h8 : a'.traits = a.traits) (h9 : a'.alloc = a.alloc) (h10 : a'.lease = a.lease)
     (h11 : a'.blacklisted = a.blacklisted) (h12 : a'.schedOnce = a.schedOnce)
     (h13 : a'.retention = a.retention) (h14 : a'.prio = a.prio) (h15 : a'.unschedule = a.unschedule)
-    (h16 : a'.renew = a.renew) :
+    (h16 : a'.renew = a.renew) (h17 : a'.evFrom = a.evFrom ∨ a'.evFrom = none) :
     LPrim (.appMeta aid) c (c.setApp a') := by
   have hid := app?_id ha
   subst hid
-  exact .appMeta ha h1 h2 h3 h4 h5 h6 h7 h8 h9 h10 h11 h12 h13 h14 h15 h16
+  exact .appMeta ha h1 h2 h3 h4 h5 h6 h7 h8 h9 h10 h11 h12 h13 h14 h15 h16 h17
 
 theorem setRenew_lprim {c : Cell} {aid : Nat} {a : App} (ha : c.app? aid = some a) (b : Bool) :
     LPrim (.setRenew aid b) c (c.setApp { a with renew := b }) := by
@@ -25,7 +25,7 @@ theorem setRenew_lprim {c : Cell} {aid : Nat} {a : App} (ha : c.app? aid = some 
   exact .setRenew ha
 
 theorem ghost_lprim {c : Cell} {aid : Nat} {a : App} (ha : c.app? aid = some a) (v) :
-    LPrim (.ghost aid) c (c.setApp { a with evFrom := v }) := by
+    LPrim (.ghost aid v) c (c.setApp { a with evFrom := v }) := by
   have hid := app?_id ha
   subst hid
   exact .ghost ha
@@ -46,7 +46,7 @@ theorem serverRestore_lreach {c c' aid sid exp b} (h : serverRestore c aid sid e
   simp only [Prod.mk.injEq] at h
   obtain ⟨rfl, rfl⟩ := h
   exact (LReach.single (.put hput) (Or.inl rfl)).step
-    (setMeta_lprim ha1 rfl rfl rfl rfl rfl rfl rfl rfl rfl rfl rfl rfl rfl rfl rfl rfl) (Or.inr rfl)
+    (setMeta_lprim ha1 rfl rfl rfl rfl rfl rfl rfl rfl rfl rfl rfl rfl rfl rfl rfl rfl (Or.inl rfl)) (Or.inr rfl)
 
 /-- `Server.restore` for a caller-chosen label predicate. -/
 theorem serverRestore_lreachP {P : Cell → Lab → Prop} {c c' aid sid exp b}
@@ -57,7 +57,7 @@ theorem serverRestore_lreachP {P : Cell → Lab → Prop} {c c' aid sid exp b}
   simp only [Prod.mk.injEq] at h
   obtain ⟨rfl, rfl⟩ := h
   exact (LReach.single (.put hput') hput).step
-    (setMeta_lprim ha1 rfl rfl rfl rfl rfl rfl rfl rfl rfl rfl rfl rfl rfl rfl rfl rfl) (hmeta _)
+    (setMeta_lprim ha1 rfl rfl rfl rfl rfl rfl rfl rfl rfl rfl rfl rfl rfl rfl rfl rfl (Or.inl rfl)) (hmeta _)
 
 theorem serverRenew_lreach {c c' aid sid b} (h : serverRenew c aid sid = .ok (c', b)) :
     LReach (fun _ lab => lab = .appMeta aid) c c' := by
@@ -66,7 +66,7 @@ theorem serverRenew_lreach {c c' aid sid b} (h : serverRenew c aid sid = .ok (c'
   split at h
   · simp only [pure_ok, Prod.mk.injEq] at h
     obtain ⟨rfl, _⟩ := h
-    exact LReach.single (setMeta_lprim ha rfl rfl rfl rfl rfl rfl rfl rfl rfl rfl rfl rfl rfl rfl rfl rfl) rfl
+    exact LReach.single (setMeta_lprim ha rfl rfl rfl rfl rfl rfl rfl rfl rfl rfl rfl rfl rfl rfl rfl rfl (Or.inl rfl)) rfl
   · simp only [pure_ok, Prod.mk.injEq] at h
     obtain ⟨rfl, _⟩ := h
     exact .refl
